@@ -25,11 +25,13 @@ def validate(run, tier):
     cfgs = [dict(clustering=False), dict(clustering=True, sample="rwm", resample="syst")]
     if tier != "quick":
         cfgs += [dict(clustering=True), dict(clustering=False, sample="rwm"), dict(clustering=False, resample="syst", volume_variation=0.5)]
-    for target in ("interior", "periodic", "periodic_shift", "edge", "corr", "bimodal", "edge_reflective"):
+    for target in ("interior", "periodic", "periodic_shift", "edge", "corr", "bimodal", "edge_reflective", "half"):
         few = [dict(clustering=False), dict(clustering=True)][:1 if tier == "quick" else 2]
         if target == "bimodal":
             few = [dict(clustering=True), dict(clustering=False, sample="rwm", resample="syst")][:1 if tier == "quick" else 2]
-        for cfg in (cfgs if target not in ("corr", "periodic_shift", "bimodal", "edge_reflective") else few):
+        if target == "half":
+            few = [dict(clustering=False), dict(clustering=False, sample="rwm")][:1 if tier == "quick" else 2]
+        for cfg in (cfgs if target not in ("corr", "periodic_shift", "bimodal", "edge_reflective", "half") else few):
             res = ens.run_ensemble(target, cfg, R, npart, 5000)
             bad = [r for r in res if not r["ok"]]
             what = dict(target=target, cfg=cfg, runs=R, n_particles=npart, seeds="5000..")
@@ -55,6 +57,18 @@ def validate(run, tier):
                 if abs(e_c) > 6 * se_c + 0.03 or abs(e_s) > 6 * se_s + 0.03:
                     run.fail("periodic-coordinate-biased", f"{target}: circular moments of the periodic coordinate over {R} seeds: E[cos] error "
                              f"{e_c:+.3f} (se {se_c:.3f}), E[sin] error {e_s:+.3f} (se {se_s:.3f})", **what)
+            if target == "half":
+                # a likelihood that is zero for x0 < 0: no posterior mass there, and coordinate 0 is a half-Gaussian
+                m0 = ens.S * math.sqrt(2 / math.pi)
+                e_h, se_h = ens.stats([r["mean"][0] for r in res], m0)
+                forbidden = max(r["mass_left"] for r in res)
+                run.extra["ensemble"][-1].update(half_mean_err=round(e_h, 4), half_mean_se=round(se_h, 4), max_mass_where_L_is_zero=forbidden)
+                if forbidden > 0.0:
+                    run.fail("posterior-mass-where-likelihood-is-zero", f"half-supported target: a run returns posterior weight {forbidden:.3g} on samples "
+                             f"with zero likelihood", **what)
+                if abs(e_h) > 6 * se_h + 0.03:
+                    run.fail("posterior-estimate-biased", f"half-supported target: mean of the constrained coordinate off by {e_h:+.3f} (se {se_h:.3f}) over {R} seeds", **what)
+                continue
             if target == "bimodal":
                 # mode masses (0.3 / 0.7) and a marginal CDF value: P(x0 < 2) = 0.3 + 0.7/2
                 e_m, se_m = ens.stats([r["mass_left"] for r in res], 0.3)
@@ -121,7 +135,8 @@ def stored_evidence_probe(run, tier):
     from tempest.state_manager import StateManager
     for cfg in (dict(clustering=False), dict(clustering=False, volume_variation=0.03), dict(clustering=True, sample="rwm", volume_variation=0.05)):
         s = Sampler(ens.pt, ens.ll_interior, n_dim=2, n_particles=32, random_state=77, **cfg)
-        s.run(n_total=64, progress=False)
+        # n_total well above what one iteration at beta = 1 delivers: several consecutive iterations at the same temperature
+        s.run(n_total=200 if "volume_variation" not in cfg else 64, progress=False)
         h = s.state._history
         betas = [float(b) for b in h["beta"]]
         T = len(betas)
@@ -137,6 +152,7 @@ def stored_evidence_probe(run, tier):
             if abs(float(lz) - float(h["logz"][t])) > 1e-9 * max(1.0, abs(float(lz))):
                 bad.append((t + 1, betas[t], float(h["logz"][t]), float(lz)))
         run.case(key=("stored-evidence", str(cfg)), nontrivial=True)
+        run.count(f"stored-evidence probe: {sum(1 for a, b in zip(betas, betas[1:]) if a == b and a > 0)} consecutive iterations at one positive temperature")
         if bad:
             t, b, got, want = bad[0]
             run.fail("stored-evidence-incoherent", f"{len(bad)} of {T} batches carry an evidence that is not the estimate at their own temperature; "
